@@ -14,7 +14,7 @@ CONSTANTS
   Hook = FALSE
   Steer = FALSE
   Emit = FALSE
-  Sizes = {1}
+  Sizes <- SzAll
   Targets = {}
   Canon = FALSE
 INVARIANTS PTypeOK AtMostOnce WaitCovers ExactlyOnceAtQuiescence AddOK Counters NoStranded InflightGuard InflightMeaning Conservation NoStuck
